@@ -339,6 +339,16 @@ def discharge(ctx, prog, cr, ent, s, frames):
                 if a['adt'].endswith(ent['adt']):
                     bad.append(f"{b['id']}:{a['line']}")
         return (not bad), (f"no {ent['adt']} value is constructed in {len(r)} bodies reachable from {ent['from']}[Self={ent.get('self_ty')}]" if not bad else f"{ent['adt']} constructed at {bad[:3]}")
+    if d == 'syn-path-segments':
+        b = prog.bodies[s['body']]
+        uw = [c for c in b['calls'] if c['bb'] == s['bb'] and c['callee'].endswith(UNWRAPS)]
+        if len(uw) != 1 or not any('syn::PathSegment' in t2 for t2 in uw[0].get('arg_tys', [])):
+            return False, 'the unwrapped value is not an Option<&syn::PathSegment>'
+        m = re.match(r'(?:move|copy) (_\d+)', uw[0]['args'][0]) if uw[0].get('args') else None
+        prod = [c for c in b['calls'] if m and str(c.get('dest') or '').split(' ')[0] == m.group(1)]
+        ok = len(prod) == 1 and (re.search(r'punctuated::Punctuated::<T, P>::(last|first)$', prod[0]['callee'])
+                                 or (re.search(r'Iterator>?::(last|next)$|DoubleEndedIterator>?::next_back$', prod[0]['callee']) and any('punctuated::Iter<' in t2 and 'PathSegment' in t2 for t2 in prod[0].get('arg_tys', []))))
+        return bool(ok), ('first/last element of the segment list of a parsed syn::Path' if ok else f"produced by `{prod[0]['callee'][-60:] if prod else '?'}`, not by first()/last() of a Punctuated<PathSegment>")
     if d == 'clap-required':
         a = [i for i in ctx.astq['items'] if i['kind'] == 'struct' and i['file'].endswith('args.rs')]
         txt = json.dumps(a)
